@@ -88,6 +88,7 @@ type apiCase struct {
 	pubHandle    *keyset.Handle
 	signer       tink.Signer
 	verifier     tink.Verifier
+	buf          candBuf
 }
 
 func (c *apiCase) String() string {
@@ -155,7 +156,8 @@ func (c *apiCase) should(cand, msg []byte) bool {
 
 func (c *apiCase) try(t *rapid.T, kind string, cand, msg []byte) bool {
 	want := c.should(cand, msg)
-	err, pan := noPanic(func() error { return c.verifier.Verify(cand, msg) })
+	vs, vm := c.buf.views(cand, msg)
+	err, pan := noPanic(func() error { return c.verifier.Verify(vs, vm) })
 	if pan != nil {
 		t.Fatalf("%v: candidate kind=%s: Verify PANICS: %v (reference decision %v)\nmsg = %x\nsig = %x", c, kind, pan, want, msg, cand)
 	}
@@ -248,6 +250,7 @@ func TestTinkMLDSA(t *testing.T) {
 		}
 		evid.Add("verify_candidates", int64(n))
 		evid.Add("verify_candidates_accepted", int64(acc))
+		evid.Add("candidates_in_reused_buffers", int64(c.buf.reused))
 		evid.Case(fmt.Sprintf("%s/%s/%s/msg=%s", c.ps.name, c.variant, c.route, gen.LenClass(len(msg))), true,
 			evid.NewH().S(c.ps.name).S(c.variant).I(int64(c.id)).S(c.route).B(c.seed).B(msg).B(rnd).Sum(), func() any {
 				return map[string]any{"case": c.String(), "msg": gen.Hex(msg), "rnd": fullHex(rnd), "entropy": entropy, "candidates": n, "accepted": acc, "sig": hashHex(sig)}
@@ -671,10 +674,12 @@ func TestComposite(t *testing.T) {
 			return a && b, a, b
 		}
 		n, acc := 0, 0
+		var buf candBuf
 		try := func(kind string, cand, m []byte) bool {
 			n++
 			want, a, b := should(cand, m)
-			err, pan := noPanic(func() error { return verifier.Verify(cand, m) })
+			vs, vm := buf.views(cand, m)
+			err, pan := noPanic(func() error { return verifier.Verify(vs, vm) })
 			if pan != nil {
 				rt.Fatalf("%s: candidate kind=%s: Verify PANICS: %v (reference decision %v)\nmsg = %x\nsig = %x", desc, kind, pan, want, m, cand)
 			}
@@ -751,9 +756,19 @@ func TestComposite(t *testing.T) {
 		try("own/flip-classical-part", flipBit(sig, rapid.IntRange(8*(len(prefix)+p.SigSize), 8*len(sig)-1).Draw(rt, "bit_cl")), msg)
 		try("own/truncated", sig[:len(sig)-1], msg)
 		try("empty", []byte{}, msg)
+		// bytes after a valid signature: the split is at the fixed ML-DSA length, so the classical
+		// verifier gets the whole remainder (for the variable-length DER part too) - the reference
+		// decides; and one generic mutation of the whole composite signature
+		try("own/suffix-00", cat(sig, []byte{0}), msg)
+		sfx := rapid.SliceOfN(rapid.Byte(), 1, 8).Draw(rt, "suffix")
+		try(fmt.Sprintf("own/suffix-%x", sfx), cat(sig, sfx), msg)
+		try(fmt.Sprintf("assembled/valid+valid+suffix-%x", sfx[:1]), cat(prefix, mlValid, clValid, sfx[:1]), msg)
+		sm := gen.Mutate(rt, "sigmut", sig)
+		try("own/sig-"+sm.Kind, sm.Out, msg)
 
 		evid.Add("verify_candidates", int64(n))
 		evid.Add("verify_candidates_accepted", int64(acc))
+		evid.Add("candidates_in_reused_buffers", int64(buf.reused))
 		evid.Case(fmt.Sprintf("%s+%s/%s/%s", ps.name, cs.name, variant, route), true,
 			evid.NewH().S(ps.name).S(cs.name).S(variant).I(int64(id)).S(route).B(seed).S(ck.desc).B(msg).B(rnd).S(mlKind).S(clKind).Sum(), func() any {
 				return map[string]any{"case": desc, "msg": gen.Hex(msg), "rnd": fullHex(rnd), "entropy": entropy, "broken": mlKind + "/" + clKind, "candidates": n, "accepted": acc, "sig": hashHex(sig)}
